@@ -124,3 +124,14 @@ CHECKS["C17"] = dict(
     assumptions=["fake-time engine: Go 1.26 timer semantics", "schedules are sampled, not enumerated"],
     units=[unit("props26", ["Ledger"], "C17"), unit("props", ["Concurrent"], "C17", crash_is_violation=True, wedge_is_violation=True)],
 )
+
+CHECKS["C12"] = dict(
+    level="exploration",
+    rule="rapid-generated operation sequences on one ListenerManager address with 1..6 handles, for stream and for packet listeners on real sockets: acquire / close(handle) / call(handle) "
+         "(an accept or read left pending in its own goroutine) / send 1..3 connections or datagrams carrying unique tokens / settle; each case is executed 4 times because deliveries racing with closes are "
+         "schedule-dependent. Invariants over the history: a token is delivered at most once, and exactly once while an open handle has a call pending; never to a call started after that handle's Close returned; "
+         "pending and later calls on a closed handle return net.ErrClosed; after the last close the address can be bound again, no goroutine of the shared listener is left, and connections accepted by the socket "
+         "but handed to nobody are closed (EOF/RST, not a hang). Non-trivial = a close while deliveries are in flight or calls are pending, deliveries spread over >=2 handles, or re-acquisition after full release.",
+    assumptions=["interleavings are sampled by repetition, not enumerated", "virtual packet connections are closed at most once (documented precondition)"],
+    units=[unit("props", ["Stream", "Packet"], "C12")],
+)
